@@ -5,6 +5,7 @@ package cache
 // are the replay tests (see internal/zzverif).
 
 import (
+	"sync/atomic"
 	"time"
 
 	"github.com/glyphlang/glyph/internal/zzverif"
@@ -102,12 +103,27 @@ func zzNewCache(capacity int, maxSize int64, ttl time.Duration) *LRUCache {
 }
 
 func zzCheckInvariants(c *LRUCache, r *zzRef, step string) {
+	zzCheckStructure(c, r.cap, r.maxSize, step)
+	zzverif.Assert(c.Stats().Size == r.size, "size-differs-from-lru-model after "+step)
+}
+
+// zzCheckStructure: the bounds, and the agreement of index, recency list and byte accounting.
+func zzCheckStructure(c *LRUCache, capacity int, maxSize int64, step string) {
 	st := c.Stats()
-	zzverif.Assert(st.EntryCount <= int64(r.cap), "count-exceeds-capacity after "+step)
-	if r.maxSize > 0 {
-		zzverif.Assert(st.Size <= r.maxSize, "size-exceeds-maxSize after "+step)
+	zzverif.Assert(st.EntryCount <= int64(capacity), "count-exceeds-capacity after "+step)
+	if maxSize > 0 {
+		zzverif.Assert(st.Size <= maxSize, "size-exceeds-maxSize after "+step)
 	}
 	zzverif.Assert(st.EntryCount == int64(len(c.items)), "index-and-list-disagree after "+step)
+	// the bytes really held (summed over the entries) are what the accounting says, and within the budget
+	var held int64
+	for e := c.evictList.Front(); e != nil; e = e.Next() {
+		held += e.Value.(*Entry).Size
+	}
+	zzverif.Assert(held == st.Size, "byte-accounting-differs-from-content after "+step)
+	if maxSize > 0 {
+		zzverif.Assert(held <= maxSize, "content-exceeds-maxSize after "+step)
+	}
 }
 
 // zzHistory drives k operations against the real cache and the reference.
@@ -196,6 +212,88 @@ func VerifC20_History2() { zzHistory(2, 2, false) }
 func VerifC20_History3() { zzHistory(3, 2, false) }
 func VerifC20_History4() { zzHistory(4, 3, false) }
 
+// Tagged entries: SetWithTags with tag lists that are empty, single, several
+// or name a tag twice (lists merged from several sources), DeleteByTag, plain
+// Set/Get/Delete in between; an eviction callback counts what leaves.
+var zzTagLists = [][]string{nil, {"t"}, {"u"}, {"t", "u"}, {"t", "u", "t"}, {"u", "u"}}
+
+func zzTagHistory(k, nkeys int, firstSet bool) {
+	capacity := zzverif.IntRange("capacity", 1, 3)
+	maxSize := int64(zzverif.IntRange("maxSize", 0, 12))
+	evicted := 0
+	c := NewLRUCache(WithCapacity(capacity), WithMaxSize(maxSize), WithDefaultTTL(0), WithOnEvict(func(string, interface{}) { evicted++ }))
+	defer c.Close()
+	r := &zzRef{cap: capacity, maxSize: maxSize}
+	tags := map[string][]string{}
+	for step := 0; step < k; step++ {
+		op := 0
+		if step > 0 || !firstSet {
+			op = zzverif.Choice("op", 4)
+		}
+		key := zzKeys[zzverif.Choice("key", nkeys)]
+		switch op {
+		case 0: // SetWithTags
+			n := zzverif.IntRange("valueLen", 0, 6)
+			zzverif.Assume(maxSize == 0 || int64(n) <= maxSize)
+			v := zzverif.OpaqueString("value", n)
+			tl := zzTagLists[zzverif.Choice("tags", len(zzTagLists))]
+			err := c.SetWithTags(key, v, 0, tl)
+			zzverif.Assert(err == nil, "setwithtags-error")
+			r.set(key, v, int64(n), 0, 0)
+			tags[key] = tl
+			zzCheckInvariants(c, r, "setwithtags")
+		case 1: // DeleteByTag
+			tag := []string{"t", "u", "w"}[zzverif.Choice("tag", 3)]
+			before := evicted
+			got := c.DeleteByTag(tag)
+			want := 0
+			for i := 0; i < len(r.ents); {
+				has := false
+				for _, t := range tags[r.ents[i].key] {
+					if t == tag {
+						has = true
+					}
+				}
+				if has {
+					r.removeAt(i)
+					want++
+				} else {
+					i++
+				}
+			}
+			zzverif.Assert(got == want, "deletebytag-count-differs-from-removed-entries")
+			zzverif.Assert(evicted-before == want, "deletebytag-evict-callbacks-differ-from-removed-entries")
+			zzCheckInvariants(c, r, "deletebytag")
+		case 2: // Set (untagged: replaces the entry, tags included)
+			n := zzverif.IntRange("valueLen", 0, 6)
+			zzverif.Assume(maxSize == 0 || int64(n) <= maxSize)
+			v := zzverif.OpaqueString("value", n)
+			zzverif.Assert(c.Set(key, v, 0) == nil, "set-error")
+			r.set(key, v, int64(n), 0, 0)
+			tags[key] = nil
+			zzCheckInvariants(c, r, "set")
+		case 3: // Get
+			got, ok := c.Get(key)
+			want, wok := r.get(key)
+			zzverif.Assert(ok == wok, "get-hit-miss-differs-from-lru-model")
+			if ok && wok {
+				zzverif.Assert(got.(string) == want, "get-returns-wrong-value")
+			}
+			zzCheckInvariants(c, r, "get")
+		}
+	}
+	for _, key := range zzKeys[:nkeys] {
+		_, ok := c.Get(key)
+		_, wok := r.get(key)
+		zzverif.Assert(ok == wok, "final-get-hit-miss-differs-from-lru-model")
+	}
+	zzverif.Reach("tags")
+}
+
+func VerifC20_Tags3()     { zzTagHistory(3, 2, true) }
+func VerifC20_Tags3Full() { zzTagHistory(3, 3, false) }
+func VerifC20_Tags4()     { zzTagHistory(4, 2, true) }
+
 // Every Set returns, for every value size and configuration.
 func VerifC20_SetAlwaysReturns() {
 	capacity := zzverif.IntRange("capacity", 0, 2)
@@ -260,4 +358,64 @@ func VerifC20_Concurrent() {
 	_, hasC := c.Get("c")
 	zzverif.Assert(hasC, "concurrent: the most recently stored key was evicted")
 	zzverif.Reach("concurrent")
+}
+
+// Two goroutines store into a full cache (capacity 1 or 2) that has an eviction callback: both
+// stores evict, and whatever the callback's place in the locking, the cache
+// afterwards is within its bounds with index, list and accounting in agreement.
+func VerifC20_ConcurrentEvictCallback() {
+	var evicted int32
+	sameKey := zzverif.Bool("both store the same new key")
+	capacity := zzverif.IntRange("capacity", 1, 2)
+	c := NewLRUCache(WithCapacity(capacity), WithMaxSize(8), WithDefaultTTL(0), WithOnEvict(func(string, interface{}) { atomic.AddInt32(&evicted, 1) }))
+	c.Set("x", "00", 0)
+	c.Set("y", "00", 0)
+	k2 := "b"
+	if sameKey {
+		k2 = "a"
+	}
+	done := make(chan struct{}, 2)
+	go func() {
+		zzverif.Perturb()
+		c.Set("a", "11", 0)
+		done <- struct{}{}
+	}()
+	go func() {
+		zzverif.Perturb()
+		c.Set(k2, "222", 0)
+		done <- struct{}{}
+	}()
+	<-done
+	<-done
+	zzCheckStructure(c, capacity, 8, "concurrent sets with an eviction callback")
+	_, hasA := c.Get("a")
+	_, hasB := c.Get(k2)
+	zzverif.Assert(hasA || hasB, "concurrent: neither of the two stored keys is present")
+	zzverif.Reach("concurrent-evict")
+}
+
+// DeleteByTag while another goroutine deletes one of the tagged entries.
+func VerifC20_ConcurrentDeleteByTag() {
+	var evicted int32
+	c := NewLRUCache(WithCapacity(3), WithMaxSize(6), WithDefaultTTL(0), WithOnEvict(func(string, interface{}) { atomic.AddInt32(&evicted, 1) }))
+	c.SetWithTags("a", "11", 0, []string{"t"})
+	c.SetWithTags("b", "22", 0, []string{"t"})
+	done := make(chan struct{}, 2)
+	go func() {
+		zzverif.Perturb()
+		c.DeleteByTag("t")
+		done <- struct{}{}
+	}()
+	go func() {
+		zzverif.Perturb()
+		c.Delete("a")
+		c.Delete("b")
+		done <- struct{}{}
+	}()
+	<-done
+	<-done
+	zzCheckStructure(c, 3, 6, "concurrent DeleteByTag and Delete")
+	zzverif.Assert(c.Stats().Size == 0 && c.Stats().EntryCount == 0, "concurrent: entries or bytes left after everything was deleted")
+	zzverif.Assert(atomic.LoadInt32(&evicted) == 2, "concurrent: eviction callback not run exactly once per removed entry")
+	zzverif.Reach("concurrent-deletebytag")
 }
